@@ -21,8 +21,19 @@ def arith(rep, prog, rule, only=None):
             continue
         rep.touch(f)
         ctx = ranges.Ctx(prog, f, pinfo)
+        compile_time_only = (f.kind == "fn" and not f.d.get("pub") and not f.d.get("reachable")
+                             and not prog.callers().get(f.id) and not f.d.get("method")
+                             and "[" in (f.d.get("output") or ""))
         for ob in obs:
             n += 1
+            if compile_time_only:
+                # table builders (`const fn` returning an array) that no run-time code calls:
+                # they are evaluated while compiling the constants / statics they initialise,
+                # where an overflow is a compile error
+                rep.ok(rule, ranges.site_key(f, ob.kind, [ctx.sym.operand(o) for o in ob.ops]),
+                       "%s (%s)" % (ob.at, f.name), "evaluated at compile time only (no run-time "
+                       "caller): an overflow would not compile", nontrivial=False)
+                continue
             exprs = [ctx.sym.operand(o) for o in ob.ops]
             key = ranges.site_key(f, ob.kind, exprs)
             v, d = ranges.decide_arith(ctx, ob, freedom)
